@@ -910,10 +910,12 @@ func (tx *Transaction) ProcessRequestHeaders() *types.Interruption {
 
 func setAndReturnBodyLimitInterruption(tx *Transaction, status int) (*types.Interruption, int, error) {
 	tx.debugLogger.Warn().Msg("Disrupting transaction with body size above the configured limit (Action Reject)")
-	tx.interruption = &types.Interruption{
+	// Interrupt keeps an already existing interruption (the first one is final) and only
+	// remembers the would-be interruption when the engine is in DetectionOnly mode.
+	tx.Interrupt(&types.Interruption{
 		Status: status,
 		Action: "deny",
-	}
+	})
 	return tx.interruption, 0, nil
 }
 
